@@ -40,6 +40,15 @@ def run(chk):
         if d['tokens'] != v['tokens']:
             k = next(i for i, (a, b) in enumerate(zip(d['tokens'], v['tokens'])) if a != b) if len(d['tokens']) == len(v['tokens']) else -1
             chk.violation('impl-vs-impl', 'Voronoi::from(&integrator) differs from the direct build at token %d %s' % (k, where), rp, key='routes')
+        # 1b. what each route reports about its own box: the normalised box, the dimensionality, the periodicity
+        for nm, vv in (('direct build', d), ('Voronoi::from(&integrator)', v), ('with_faces route', impl['viaf'])):
+            meta = vv.get('meta') if vv else None
+            if meta is None:
+                continue
+            if meta['anchor'] != inp.na or meta['width'] != inp.nw or meta['dim'] != inp.dim or bool(meta['periodic']) != inp.periodic:
+                chk.violation('impl-vs-model', '%s reports anchor %s width %s dim %d periodic %d; the normalised box is anchor %s width %s (dim %d periodic %d) %s' % (
+                    nm, [float(x) if x is not None else None for x in meta['anchor']], [float(x) if x is not None else None for x in meta['width']], meta['dim'], meta['periodic'],
+                    [float(x) for x in inp.na], [float(x) for x in inp.nw], inp.dim, inp.periodic, where), rp, key='meta')
         active = inp.mask if inp.mask is not None else [True] * inp.n
         # 2. cell integrals = stored values of constructed cells in index order
         raw = r.res
